@@ -68,6 +68,10 @@ def check_T(col, name, u, tu, opts):
         col.violation("spelling:" + name, FN, dict(opts, url=u, variant=tu), {"canon(url)": a[1], "canon(variant)": b[1]}, "equal")
 
 
+IDN_TWINS = {"télérama": ("xn--tlrama-bvab", "XN--TLRAMA-BVAB"), "xn--tlrama-bvab": ("télérama",),
+             "münchen": ("xn--mnchen-3ya",), "xn--mnchen-3ya": ("münchen", "xN--mnchen-3ya")}
+HOSTS = ["a.com", "WWW.A.Com", "xn--tlrama-bvab.fr", "télérama.fr", "a.co.uk", "télérama.münchen.de", "xn--tlrama-bvab.münchen.de", "télérama.xn--mnchen-3ya.de",
+         "xn--tlrama-bvab.xn--zzzz.de"]
 OPTS = [dict(quoted=q, strip_fragment=s) for q in (False, True) for s in (False, True)]
 
 
@@ -81,11 +85,11 @@ def transforms(parts):
     yield "host-case", mk(host=parts["host"].swapcase())
     if parts["port"] == "" and parts["scheme"].lower() in ("http://", "https://"):
         yield "explicit-default-port", mk(port=":80" if parts["scheme"].lower() == "http://" else ":443")
-    if parts["host"] == "xn--tlrama-bvab.fr":
-        yield "punycode-vs-unicode", mk(host="télérama.fr")
-    if parts["host"] == "télérama.fr":
-        yield "punycode-vs-unicode", mk(host="xn--tlrama-bvab.fr")
-        yield "punycode-vs-unicode", mk(host="XN--TLRAMA-BVAB.fr")
+    # every label on its own may be written in punycode or in Unicode (mixed spellings included)
+    labels = parts["host"].split(".")
+    for i, l in enumerate(labels):
+        for alt in IDN_TWINS.get(l.lower(), ()):
+            yield "punycode-vs-unicode", mk(host=".".join(labels[:i] + [alt] + labels[i + 1:]))
     for comp in ("user", "password", "path", "query", "fragment"):
         toks = parts[comp]
         if not toks:
@@ -106,6 +110,9 @@ def transforms(parts):
         yield "empty-fragment-mark", mk(fragment=[])
     yield "surrounding-whitespace", mk(wrap=("  \t", " \n"))
     yield "embedded-control-char", mk(wrap=("\x00", "\x1f"))
+    # both at once, in either order (control characters are removed, what remains is stripped)
+    yield "surrounding-whitespace+control-char", mk(wrap=("\x08 ", " \x7f"))
+    yield "surrounding-whitespace+control-char", mk(wrap=(" \x00 \x1b", "\x1f \t\x01"))
 
 
 def build(parts):
@@ -125,7 +132,7 @@ def build(parts):
 
 def base_parts(rnd, hot=None, toks=None):
     p = {"scheme": rnd.choice(["http://", "https://", "HTTP://"]), "user": None, "password": None,
-         "host": rnd.choice(["a.com", "WWW.A.Com", "xn--tlrama-bvab.fr", "télérama.fr", "a.co.uk"]),
+         "host": rnd.choice(HOSTS),
          "port": rnd.choice(["", "", ":8080"]), "path": None, "query": None, "fragment": None}
     if hot:
         p[hot] = list(toks)
@@ -180,6 +187,17 @@ def main():
             jobs.append((a.tier, a.seed, comp, seqs[i::n]))
     for part in run_sharded(shard, jobs, a.jobs):
         col.merge(part)
+    # host family: every host of the pool on a plain skeleton x every transformation (the exhaustive part above uses one host)
+    for h in HOSTS:
+        for sch in ("http://", "HTTPS://"):
+            p = {"scheme": sch, "user": None, "password": None, "host": h, "port": "", "path": ["a"], "query": None, "fragment": None}
+            u = build(p)
+            for o in OPTS:
+                if check_base(col, u, o):
+                    col.nontriv(("base", u))
+            for name, vp in transforms(p):
+                for o in (OPTS[0], OPTS[3]):
+                    check_T(col, name, u, build(vp), o)
     # compositions on random multi-component URLs
     rnd = random.Random(a.seed)
     for i in range(1500 if a.tier == "quick" else 30000):
